@@ -1,6 +1,8 @@
 package main
 
 import (
+	"github.com/mycoria/mycoria/state"
+	"github.com/mycoria/mycoria/frame"
 	"bytes"
 	"fmt"
 	"strings"
@@ -79,6 +81,37 @@ func (k *kxWorld) keysOf(x bool) (in, out []byte) {
 	return s.Encryption().VerifKeys()
 }
 
+// traffic seals n end-to-end frames at x and unseals them at the other router, in order; it
+// returns the first failure.
+func (k *kxWorld) traffic(x bool, n int) error {
+	X, Y := k.node(x), k.node(!x)
+	sx, sy := X.st.GetSession(Y.id.IP), Y.st.GetSession(X.id.IP)
+	if sx == nil || sy == nil {
+		return fmt.Errorf("no session")
+	}
+	for i := 0; i < n; i++ {
+		f, err := X.builder.NewFrameV1(X.id.IP, Y.id.IP, frame.NetworkTraffic, nil, []byte("end-to-end traffic probe"), nil)
+		if err != nil {
+			return err
+		}
+		if err := f.Seal(sx); err != nil {
+			f.ReturnToPool()
+			return fmt.Errorf("seal at %s: %w", X.name, err)
+		}
+		d, _ := f.FrameDataWithMargins(0, 0)
+		data := append([]byte(nil), d...)
+		f.ReturnToPool()
+		pf, err := Y.builder.ParseFrame(data, nil, 0)
+		if err != nil {
+			return err
+		}
+		if err := pf.Unseal(sy); err != nil {
+			return fmt.Errorf("frame %d sealed by %s does not unseal at %s: %w", i+1, X.name, Y.name, err)
+		}
+	}
+	return nil
+}
+
 func (k *kxWorld) pcode(x bool) int {
 	active, done := k.node(x).ro.VerifHelloState(k.node(!x).id.IP)
 	switch {
@@ -110,6 +143,8 @@ func (e kxEv) term() string {
 		return fmt.Sprintf("(EExpire %s)", coqBool(e.x))
 	case "clear":
 		return fmt.Sprintf("(EClear %s)", coqBool(e.x))
+	case "forget":
+		return fmt.Sprintf("(EForget %s)", coqBool(e.x))
 	case "drop":
 		return fmt.Sprintf("(EDrop %s %d)", coqBool(e.x), e.i)
 	default:
@@ -148,6 +183,19 @@ func (k *kxWorld) apply(c *Ctx, e kxEv) (enabled bool, note string) {
 		active, _ := X.ro.VerifHelloState(Y.id.IP)
 		X.ro.VerifHelloExpire(Y.id.IP)
 		return active, ""
+	case "forget":
+		// X loses its keys and hello state for Y (restart / idle session evicted); only at quiescence
+		if len(k.w.queue) != 0 {
+			return false, ""
+		}
+		active, _ := X.ro.VerifHelloState(Y.id.IP)
+		had := k.est(e.x) || active
+		if !had {
+			return false, ""
+		}
+		_ = X.st.SetEncryptionSession(Y.id.IP, state.NewEncryptionSession())
+		X.ro.VerifHelloExpire(Y.id.IP)
+		return true, ""
 	case "clear":
 		// Y holds no keys and tells X so ("no encryption keys" error ping), delivered at once
 		before := len(k.w.queue)
@@ -249,6 +297,9 @@ func runC14(c *Ctx) error {
 					if expAny || quiet {
 						cands = append(cands, kxEv{kind: "expire", x: x})
 					}
+					if quiet {
+						cands = append(cands, kxEv{kind: "forget", x: x})
+					}
 					if k.est(x) && !k.est(!x) && len(k.channel(!x)) == 0 && !k.clears[b2i(x)] {
 						cands = append(cands, kxEv{kind: "clear", x: x})
 					}
@@ -284,6 +335,22 @@ func runC14(c *Ctx) error {
 				}
 				c.Violate(what, key, map[string]any{"schedule": trace, "expiry_any_time": expAny})
 				break
+			}
+			// ... and traffic sealed by either router unseals at the other (sometimes a burst longer than
+			// the replay window, so that a later re-setup meets advanced windows)
+			if len(k.w.queue) == 0 && k.est(true) && k.est(false) && k.agree() {
+				nfr := 1
+				if c.Rng.IntN(3) == 0 {
+					nfr = 70
+				}
+				for _, x := range []bool{true, false} {
+					if err := k.traffic(x, nfr); err != nil {
+						c.Violate("no setup frame is in flight, both routers consider encryption established with the same keys, but traffic does not get through: "+err.Error(), "kx-traffic", map[string]any{"schedule": trace})
+						break
+					}
+				}
+				trace = append(trace, fmt.Sprintf("traffic(%d each way)", nfr))
+				c.Count("traffic-probe")
 			}
 		}
 		c.Case(fmt.Sprintf("(%s,%s)", coqBool(expAny), coqList(steps)), map[string]any{"family": label, "schedule": trace})
